@@ -40,10 +40,14 @@ def make_transform(ck, kind, force_sym=None, cover=None):
     w0 = gen.int_filter(rng, L); w1 = gen.int_filter(rng, L)
     nb, c = rng.choice([(1, 2), (2, 1), (2, 2), (2, 3), (3, 2), (1, 33), (2, 17)]) if rng.random() < 0.8 else rng.choice([(1, 33), (1, 40), (2, 17)])
     J = rng.randint(1, 3)
+    thin = None
     if cover is not None:            # deterministic covering configurations: several batch items, several channels, several levels
-        nb, c, J = cover
+        nb, c, J = cover[:3]
+        if len(cover) > 3:           # ... and degenerate extents: an axis of one or two samples, or one that collapses to 1 at a coarse level
+            thin, m = cover[3], cover[4]
+            L = rng.choice([2, 4]); w0 = gen.int_filter(rng, L); w1 = gen.int_filter(rng, L)
     if kind == 'DWT1DForward':
-        N = max(2, L + rng.randint(0, 12))
+        N = max(2, L + rng.randint(0, 12)) if thin is None else thin[1]
         return ('DWT1DForward mode=%s J=%d L=%d' % (gen.MODE_NAME[m], J, L), [(nb, c, N)],
                 lambda xs: rt.run_impl(rt.Case('Z', 'DWT1DForward', [m, J], [w0, w1, xs[0]]), TABLE), 0.0)
     if kind == 'DWT1DInverse':
@@ -53,6 +57,8 @@ def make_transform(ck, kind, force_sym=None, cover=None):
                 lambda xs: rt.run_impl(rt.Case('Z', 'DWT1DInverse', [m], [w0, w1] + list(xs)), TABLE), 0.0)
     if kind == 'DWTForward':
         H = max(2, L + rng.randint(0, 8)); W = max(2, L + rng.randint(0, 8))
+        if thin is not None:
+            H, W = thin
         return ('DWTForward mode=%s J=%d L=%d' % (gen.MODE_NAME[m], J, L), [(nb, c, H, W)],
                 lambda xs: rt.run_impl(rt.Case('Z', 'DWTForward', [m, J, 2], [w0, w1, xs[0]]), TABLE), 0.0)
     if kind == 'DWTInverse':
@@ -215,6 +221,12 @@ def run(ck):
             rt.guard(ck, oracle_linear, ck, kind, None, None, (2, 3, 2), False, how)
     for cov in ((2, 3, 2), (1, 2, 1)):
         rt.guard(ck, oracle_linear, ck, 'DTCWTInverse', None, None, cov, True)
+    # degenerate extents in every padding mode, with several channels: images of one row / one column / two rows, thin images whose
+    # short side collapses to a single sample at a coarse level, signals of one to three samples
+    for m_ in gen.MODES5:
+        for (thin, J_) in (((1, 9), 1), ((9, 1), 1), ((2, 7), 2), ((4, 32), 4), ((1, 1), 1), ((3, 8), 5)):
+            rt.guard(ck, oracle_linear, ck, 'DWTForward', None, None, (2, 3, J_, thin, m_))
+            rt.guard(ck, oracle_linear, ck, 'DWT1DForward', None, None, (2, 3, J_, thin, m_))
     for it in range(70 if q else 700):
         rt.guard(ck, oracle_linear, ck, KINDS[it % len(KINDS)])
     # present-but-zero arguments in both padding modes: every argument position of the inverse transforms in turn
